@@ -557,6 +557,9 @@ impl Check for C06 {
         }
         out.into_iter().map(|s| serde_json::to_value(s).unwrap()).collect()
     }
+    fn attempts(&self) -> u32 {
+        3
+    }
     fn rule(&self) -> String {
         "one run = one seeded scenario: a watched stream (a session started by POST /sessions + input, the session of a run started by a thread post, a background task, or a thread receiving 1-3 posts), produced by the stub runtime, a scripted provider answer of 3-14 frames, or a tool envelope; a hold plan (one of: hold the producer at the n-th visit (n in 0..14) of its before-record point or of the point between recording a frame and publishing it and attach a subscriber exactly there; hold a subscriber between its subscribe and its history snapshot for 0-40 ms while the producer runs; none) plus, in 2 of 3 scenarios, random holds of 0-12 ms at every visited point with probability 1/2..1/6; 1-4 subscribers attaching before the start, at the held point, 0-30 ms after the start, or after the end. After the producer finished and all holds were released, each subscriber must have received exactly the (seq,id) list the log holds for that stream, in order (missing / duplicated / reordered frames are distinct violation classes); distinct = hash of the scenario; non-trivial = watched stream has at least 3 frames".into()
     }
